@@ -71,6 +71,7 @@ def tree_hash():
     if _tree_hash:
         return _tree_hash
     h = hashlib.sha256()
+    h.update(os.path.realpath(REPO).encode() + b"\0")      # builds embed source paths (debug info, sanitizer stacks): never share them between roots
     files = []
     for sub in ("hwloc", "include", "utils"):
         for root, dirs, fs in os.walk(os.path.join(REPO, sub)):
@@ -409,7 +410,7 @@ def _repo_frames(text, maxn=2):
         fn, loc = m.group(2), m.group(3)
         if "/harness/" in loc or loc.startswith(VERIF):
             continue
-        if (REPO + "/") in loc or "/hwloc/" in loc or "/include/hwloc" in loc or "/utils/" in loc:
+        if (REPO + "/") in loc or "/hwloc/" in loc or "/include/hwloc" in loc or "/include/private/" in loc or "/utils/" in loc:
             if fn not in out:
                 out.append(fn)
             if len(out) >= maxn:
